@@ -147,7 +147,7 @@ Proof.
     repeat split; auto.
     - apply s_builder_drop_ok in H. rewrite Hok in H. apply andb_true_iff in H. tauto.
     - apply s_builder_drop_ok in H. rewrite Hok in H. apply andb_true_iff in H. rewrite !andb_true_r. tauto. }
-  destruct o as [c|c|n| |n|built c|c|h|hs|h| | |h|h| |h| |so| |lsid lh lv|lsid ll|lsid lh|prog|qso| ]; cbn [sstep_core micro is_creation is_obs].
+  destruct o as [c|c|n| |n|built c|c|h|hs|h| | |h|h| |h| |so| |lsid lh lv|lsid ll|lsid lh|prog|qso|jk jms|cso| ]; cbn [sstep_core micro is_creation is_obs].
   - specialize (Hone false (hd_choice cs)). destruct (s_create false sw (hd_choice cs)) as [w1 e]. cbn [fst snd].
     destruct Hone as [H1 [H2 [H3 H4]]]. envn. fin.
   - specialize (Htwo false (hd_choice cs)). destruct (s_create false sw (hd_choice cs)) as [w1 e]. cbn [fst snd].
@@ -190,6 +190,8 @@ Proof.
   - destruct (hget (s_hs sw) lh); cbn; fin.
   - cbn; fin.
   - cbn; fin.
+  - destruct (env_join (s_env sw) (l_view (s_life sw)) _ (s_hs sw) jk jms) as [e' j]. cbn; fin.
+  - destruct (env_csop (s_env sw) (s_hs sw) cso) as [e' r]. cbn; fin.
   - cbn; fin.
 Qed.
 
@@ -225,7 +227,7 @@ Qed.
 
 Lemma wout_eqb_handles out l : wout_eqb out (WHandles l) = true -> out = WHandles l.
 Proof.
-  destruct out as [l'|[[p g]|]|[g|]|b|l'|l'| | |r|o|n|l'|l'|r|v|l'|k]; unfold wout_eqb; try discriminate.
+  destruct out as [l'|[[p g]|]|[g|]|b|l'|l'| | |r|o|n|l'|l'|r|v|l'|k|j|l'|l']; unfold wout_eqb; try discriminate.
   intros H. apply ents_eqb_eq in H. subst. reflexivity.
 Qed.
 
@@ -252,7 +254,7 @@ Proof.
     rewrite E1, <- X1, lhandles_app, <- X1, <- I3.
     assert (returned o out = lhandles (s_life sw) (micro sw o (choices_of out))) as Hret.
     { unfold returned. destruct (is_creation o) eqn:Ec.
-      - specialize (X3 eq_refl). destruct out1 as [l| | | | | | | | | | | | | | | | ]; try contradiction.
+      - specialize (X3 eq_refl). destruct out1 as [l| | | | | | | | | | | | | | | | | | | ]; try contradiction.
         apply wout_eqb_handles in Heq. subst. cbn [is_creation]. exact X3.
       - symmetry. apply X4. reflexivity. }
     rewrite Hret. repeat split; auto.
